@@ -105,6 +105,16 @@ where
 {
     /// reserve a robin-hood table capable of holding at least `sz` elements
     pub fn new() -> BackedRobinhoodTable<'a, T> {
+        #[cfg(feature = "verif")]
+        if let Some(cap) = crate::verif::unique_table_capacity() {
+            return BackedRobinhoodTable {
+                tbl: vec![HashTableElement::default(); cap],
+                alloc: Bump::new(),
+                cap,
+                len: 0,
+                hits: 0,
+            };
+        }
         let v: Vec<HashTableElement<T>> = vec![HashTableElement::default(); DEFAULT_SIZE];
 
         BackedRobinhoodTable {
@@ -133,6 +143,8 @@ where
 
     /// Expands the capacity of the hash table
     pub fn grow(&mut self) {
+        #[cfg(feature = "verif")]
+        crate::verif::note_unique_grow();
         let new_sz = (self.cap + 1).next_power_of_two();
         self.cap = new_sz;
         let old = mem::replace(&mut self.tbl, vec![HashTableElement::default(); new_sz]);
@@ -151,6 +163,12 @@ where
 
     pub fn num_nodes(&self) -> usize {
         self.len
+    }
+
+    /// current number of slots (verification hook)
+    #[cfg(feature = "verif")]
+    pub fn verif_capacity(&self) -> usize {
+        self.cap
     }
 
     pub fn hits(&self) -> usize {
